@@ -20,10 +20,12 @@ import numpy as np
 PROPERTY = "C14"
 LEVEL = "fault_enumeration"
 VARIANTS = ["ds_full", "ds_eigh", "ds_quant_pmap", "ds_comp", "ds_comp_neg", "ds_fd", "ds_rmsprop_sched", "ds_sharded", "sm3", "sm3_nomom",
-            "tf_shampoo", "tf_sketchy", "tf_shampoo_rmsprop", "ds_adagrad_lobpcg"]
+            "tf_shampoo", "tf_sketchy", "tf_shampoo_rmsprop", "ds_adagrad_lobpcg",
+            # un-jitted (eager) updates: Python-side hidden state would act at every call, not only at trace time
+            "sm3_eager", "ds_sched_eager", "tf_shampoo_eager"]
 RULE = ("crash-point enumeration: for each optimizer variant in {distributed_shampoo full / eigh / pmap int16-quantised / compressed +1 / compressed -1 / "
         "FD sketch / RMSProp graft + lr schedule + scheduled statistics / sharded 2-device, sm3 (int8 momentum) with and without momentum, Tearfree Shampoo / "
-        "Sketchy / Shampoo+RMSProp graft, AdaGrad graft + LOBPCG} x 2 seeds (thorough 6) EVERY interruption point k in 0..T (T=6, thorough 10) is "
+        "Sketchy / Shampoo+RMSProp graft, AdaGrad graft, and un-jitted (eager) sm3 / scheduled distributed_shampoo / Tearfree Shampoo} x 2 seeds (thorough 6) EVERY interruption point k in 0..T (T=6, thorough 10) is "
         "resumed in a fresh interpreter.  evaluations = (variant, seed, k) resumes; non-trivial when 0<k<T (state has history and steps remain); distinct by (variant, seed, k)")
 ASSUMPTIONS = ["serialization = flax.serialization.to_bytes / from_bytes into the state produced by init() of a freshly constructed optimizer",
                "for pmap variants the per-device state (device 0) is serialized and re-replicated",
@@ -53,7 +55,10 @@ def shards(tier, seed):
 
 # ------------------------------------------------------------------ optimizer variants (shared by parent and child)
 def make(variant):
-  """-> (opt, mode) ; mode in {plain, pmap, sharded}."""
+  """-> (opt, mode) ; mode in {plain, pmap, sharded, eager}."""
+  if variant.endswith("_eager"):
+    base_variant = {"sm3_eager": "sm3", "ds_sched_eager": "ds_rmsprop_sched", "tf_shampoo_eager": "tf_shampoo"}[variant]
+    return make(base_variant)[0], "eager"
   import contextlib
   import io
   import jax.numpy as jnp
@@ -127,6 +132,9 @@ class Stepper:
       elif self.mode == "pmap":
         st = self.opt.init(self.params)
         self._f = jax.pmap(lambda g, s: self.opt.update(g, s, self.params), axis_name="b", devices=jax.devices()[:1])
+      elif self.mode == "eager":
+        st = self.opt.init(self.params)
+        self._f = self.opt.update
       else:
         st = self.opt.init(self.params)
         self._f = jax.jit(self.opt.update)
@@ -174,6 +182,11 @@ def child_main(workdir, variant, rseed, T, k):
   with open(os.path.join(workdir, "state_%d.bin" % k), "rb") as f:
     blob = f.read()
   st = serialization.from_bytes(template, blob)
+  # from_bytes returns NumPy leaves; put them back on device as a checkpoint restore does (in eager mode NumPy
+  # operands would otherwise be combined by NumPy instead of XLA and differ in the last bit)
+  import jax
+  import jax.numpy as jnp
+  st = jax.tree.map(jnp.asarray, st)
   out = {"struct_ok": sig(st) == sig(template), "sig_detail": ""}
   if not out["struct_ok"]:
     a, b = sig(st), sig(template)
